@@ -3,4 +3,6 @@
 TextsA == <<"GPL-2.0", "GPL-2.0+", "GPL-3.0-only", "MIT", "LicenseRef-a">>
 TextsB == <<"GPL-2.0-only", "GPL-1.0+", "GPL-3.0", "MIT+", "DocumentRef-d:LicenseRef-a", "LicenseRef-a">>
 Blocks == <<<<1, 5, 1, 6>>>>
+First == "0BSD"
+Last == "zlib-acknowledgement"
 =============================================================================
